@@ -72,6 +72,17 @@ def _run(sc, r, scratch, i):
         if where != "inside":
             scan_dirs.append(target)
         os.makedirs(target, exist_ok=True)
+        if r.random() < 0.5 and rep.groups:
+            # something already lives where a moved file would go (e.g. an earlier move into the same directory)
+            for victim in r.sample([p for g_ in rep.groups for p in g_["files"]], min(3, sum(len(g_["files"]) for g_ in rep.groups))):
+                tp = fse(target) + victim
+                try:
+                    os.makedirs(os.path.dirname(tp), exist_ok=True)
+                    if not os.path.lexists(tp):
+                        with open(tp, "wb") as f:
+                            f.write(b"earlier content kept in the target directory " + os.urandom(8))
+                except OSError:
+                    pass
     emulate = op == "dedupe" and r.random() < 0.7
     before = {}
     for sd in scan_dirs:
